@@ -208,3 +208,5 @@ Arguments SIsNesting {V}.
 Arguments SIsFIFO {V}.
 Arguments SGetOpt {V}.
 Arguments SErrIsNil {V}.
+Arguments s_cfg {V}.
+Arguments s_elems {V}.
